@@ -44,6 +44,7 @@ type p7Signer struct {
 	Attrs     []p7Attr
 	SigAlg    asn1.ObjectIdentifier
 	Sig       []byte
+	HasUnauth bool
 }
 
 type p7Blob struct {
@@ -236,11 +237,16 @@ func projectP7(der []byte) (*p7Blob, error) {
 		if s.SigAlg, err = parseAlg(nx2.Bytes); err != nil {
 			return nil, err
 		}
-		sg, _, err := rawNext(r)
+		sg, r, err := rawNext(r)
 		if err != nil || sg.Tag != asn1.TagOctetString {
 			return nil, errors.New("bad encryptedDigest")
 		}
 		s.Sig = sg.Bytes
+		if len(r) > 0 {
+			if ua, _, err := rawNext(r); err == nil && ua.Class == asn1.ClassContextSpecific && ua.Tag == 1 {
+				s.HasUnauth = true // unauthenticatedAttributes [1]: not covered by the signature
+			}
+		}
 		blob.Signers = append(blob.Signers, s)
 	}
 	return &blob, nil
